@@ -35,6 +35,7 @@ ASSUMPTIONS = [
     "after a kill only 'untouched or completely fixed' is judged; after an injected OS error the reporting clause is recorded, not judged",
 ]
 PROBES = [
+    "through_api",
     "two_faults_in_one_run",
     "kill_during_working_copy_write",
     "kill_at_replace_step",
@@ -58,8 +59,43 @@ def _argv(sc, paths):
     return list(sc["flags"]) + [sc["mode"]] + list(paths)
 
 
+class _ApiView:
+    """The API's exception / result mapping seen through the same lens as a CLI run."""
+
+    def __init__(self, op_result):
+        api = op_result.get("api") or {}
+        self.exc = op_result.get("exc")
+        self.stderr = api.get("reason", "") if api.get("type") == "exception" else ""
+        self.exit = 1 if api.get("type") == "exception" else (3 if api.get("files_fixed") else 0)
+        self.api = api
+
+    def per_file(self, name):
+        return {}
+
+
+def _view(sc, op_result):
+    return _ApiView(op_result) if sc.get("api") else OpView(op_result)
+
+
 def _request(sc, files, paths, plan=None, record_sites=False, world=None):
-    op = {"kind": "cli", "argv": _argv(sc, paths)}
+    if sc.get("api"):
+        # the API has no continue-on-error switch; one call over the whole tree
+        build = []
+        flags = list(sc["flags"])
+        index = 0
+        while index < len(flags):
+            if flags[index] == "--add-plugin":
+                build.append(["add_plugin_path", flags[index + 1]])
+                index += 2
+            elif flags[index] == "-d":
+                build.extend(["disable_rule_by_identifier", rule] for rule in flags[index + 1].split(","))
+                index += 2
+            else:
+                index += 1
+        call = "fix_path" if sc["mode"] == "fix" else "scan_path"
+        op = {"kind": "api", "new": True, "build": build, "call": [call, ["."], {"recurse_if_directory": True}]}
+    else:
+        op = {"kind": "cli", "argv": _argv(sc, paths)}
     if sc.get("probes"):
         op["probes"] = sc["probes"]
     request = {
@@ -219,6 +255,19 @@ def generate(rng, tier, index):
     flags, coe, scheme = _flags(rng, probe_ids, rules)
     paths = sorted(files)
     rng.shuffle(paths)
+    use_api = rng.random() < 0.12
+    if use_api:
+        flags = [f for f in flags if f != "--continue-on-error"]
+        cleaned, skip = [], 0
+        for f in flags:
+            if skip:
+                skip -= 1
+                continue
+            if f == "--return-code-scheme":
+                skip = 1
+                continue
+            cleaned.append(f)
+        flags, coe, scheme = cleaned, False, "default"
     sc = {
         "cls": workload.draw_class(rng),
         "world": workload.draw_world(rng),
@@ -226,6 +275,7 @@ def generate(rng, tier, index):
         "labels": labels,
         "mode": mode,
         "flags": flags,
+        "api": use_api,
         "coe": coe,
         "scheme": scheme,
         "probes": probes,
@@ -344,7 +394,7 @@ def _judge(sc, fault, stats):
         absent_files = {n: files[n] for n in others}
         absent_reply = cached_run(_request(sc, absent_files, [p for p in sc["paths"] if p not in bad_files], world=sc["world"]), sc["cls"])
         if done(absent_reply):
-            absent = (OpView(absent_reply["result"]["ops"][0]), tree_bytes(absent_reply))
+            absent = (_view(sc, absent_reply["result"]["ops"][0]), tree_bytes(absent_reply))
         else:
             stats["absent_run_unusable"] += 1
     # a natural parser failure in another file makes the absent run itself an
@@ -360,7 +410,7 @@ def _judge(sc, fault, stats):
                     solo_bad = None
                     stats["degenerate_reference"] += 1
 
-    view = OpView(result["ops"][0]) if result and result.get("ops") else None
+    view = _view(sc, result["ops"][0]) if result and result.get("ops") else None
 
     # clause 1: reported, never success ----------------------------------
     if kind in ("cb", "parse", "prov", "undecodable") and view is not None:
@@ -483,6 +533,8 @@ def evaluate(sc):
         violations.extend(found)
     stats["mode:" + sc["mode"]] += 1
     stats["coe:%s" % sc["coe"]] += 1
+    if sc.get("api"):
+        stats["through_api"] += 1
     return {"violations": violations, "evals": evals, "digests": digests, "stats": dict(stats), "faults": dict(faults)}
 
 
